@@ -26,6 +26,7 @@ static int k3fail_errno = EIO;
 static int k3fail_persistent = 0;
 static int k3fail_partial = 0; /* a failing write first writes half of its buffer */
 static long k3failed = 0;
+static int k3logidx = 0;     /* K3_LOGIDX: log the index of every intercepted call (fault-site map) */
 
 int __real_open(const char *path, int flags, ...);
 int __real_close(int fd);
@@ -48,6 +49,7 @@ static void k3_init(const char *root) {
   snprintf(k3root, sizeof(k3root), "%s", root);
   if (t) k3tr = fopen(t, "w");
   if (s) { snprintf(k3shadow, sizeof(k3shadow), "%s", s); __real_mkdir(s, 0755); }
+  k3logidx = getenv("K3_LOGIDX") != NULL;
   if (f) { /* "<index>:<errno>:<persistent>:<partial>" */
     sscanf(f, "%ld:%d:%d:%d", &k3fail_at, &k3fail_errno, &k3fail_persistent, &k3fail_partial);
   }
@@ -62,6 +64,7 @@ static int k3_should_fail(const char *what, const char *path) {
   long idx;
   if (!k3tr) return 0;
   idx = k3calls++;
+  if (k3logidx) { fprintf(k3tr, "I %ld %s %s\n", idx, what, path); fflush(k3tr); }
   if (k3fail_at >= 0 && (idx == k3fail_at || (k3fail_persistent && idx > k3fail_at))) {
     k3failed++;
     fprintf(k3tr, "F %ld %s %s errno=%d\n", idx, what, path, k3fail_errno); fflush(k3tr);
